@@ -49,6 +49,11 @@ func prewriteMutation(db *NoKV.DB, reader *Reader, req *pb.PrewriteRequest, mut 
 	if lock != nil && lock.Ts != req.StartVersion {
 		return keyErrorLocked(key, lock)
 	}
+	if lock != nil {
+		// already prewritten by this transaction; a repeated
+		// request must not rewrite the lock (it would undo a min-commit-ts push).
+		return nil
+	}
 	if write, commitTs, err := reader.MostRecentWrite(key); err != nil {
 		return keyErrorRetryable(err)
 	} else if write != nil && commitTs >= req.StartVersion {
